@@ -5,7 +5,7 @@ from __future__ import annotations
 import numpy as np
 
 from vf import ref_mdp
-from vf.gen_mdp import add_near_optimal_action, gammas_discounted, mdp_specs, spec_classes
+from vf.gen_mdp import add_near_optimal_action, add_worse_copy, gammas_discounted, mdp_specs, spec_classes
 from vf.runner import sut_bucket, verdict_fail, verdict_ok
 
 ID = "C01"
@@ -71,7 +71,16 @@ def strategy(tier, shard):
         # near-tie actions differ by about the size of the value error the stopping rule tolerates
         spec = draw(mdp_specs(max_states=10, min_states=1, scale=scale, tie_unit=eps * (1 - gamma)))
         nS = spec["nS"]
-        if spec["nA"] >= 2 and draw(st.integers(0, 2)) > 0:
+        if spec["nA"] >= 2 and draw(st.integers(0, 4)) == 0:
+            # tiny epsilon relative to the size of the values, and a pair of actions that are copies of each other except
+            # for a per-step reward gap of c * eps (1-gamma)/gamma in every state (accumulated loss c * eps / gamma: allowed
+            # for c = 0.3, beyond every documented bound for c = 3 and 6) - the gap is far below 1e-5 RELATIVE to the values,
+            # so a tie-break that compares with a relative tolerance confuses the two; the worse copy may have the lower index
+            eps = float(scale * 10.0 ** draw(st.sampled_from([-6, -5, -4])))
+            a, b = draw(st.permutations(range(spec["nA"])))[:2]
+            c = draw(st.sampled_from([0.3, 3.0, 3.0, 6.0]))
+            spec = add_worse_copy(spec, a, b, c * eps * (1 - gamma) / gamma)
+        elif spec["nA"] >= 2 and draw(st.integers(0, 2)) > 0:
             # a second action with different transitions whose optimal Q-value is a generated fraction of the
             # a-priori bound below the optimum
             unit = eps if kind != "sa" else eps * gamma / (1 - gamma)
